@@ -54,6 +54,8 @@ RetFails(r, seen) ==
     UNION {
       Fail(r.res.val # "panic", "C15:panic-" \o r.res.err),
       IF IsRead(op) THEN Fail(r.res.ok, "C05:read-failed-" \o r.res.err) ELSE {},
+      \* nothing is injected in these runs: a write-side call has no reason to fail
+      IF ~IsRead(op) THEN Fail(r.res.ok, "OPFAIL:" \o op.op \o "-failed-" \o r.res.err) ELSE {},
       IF IsRead(op) /\ r.res.ok THEN Fail(r.res.val \in seen, "C05:read-value-not-held-during-call") ELSE {},
       IF op.op = "put" /\ r.res.ok THEN Fail(op.c \in seen, "C05:put-not-visible-during-call") ELSE {},
       IF op.op = "del" /\ r.res.ok /\ r.res.val = "true" THEN Fail(seen \ {Absent} # {}, "C05:remove-true-but-never-present") ELSE {},
